@@ -237,6 +237,8 @@ def extract_fn(scratch, kv, lines, report):
         "item": "fn " + kv["fn"], "file": rel, "source_lines": [rsrc.line_of(s, ls), rsrc.line_of(s, bc)],
         "substitutions": ["%s => %s" % ab for ab in substs], "dropped_statements": dropped,
         "requires": requires, "ensures": ensures,
+        "inserted_loop_invariants": {str(k): v for k, v in invs.items()},
+        "inserted_proof_lines": [t for _, t in proofs] + [t for _, t in proofs_after],
     })
     return sig + spec + body + "\n"
 
